@@ -135,7 +135,7 @@ func (car *Carrier) open(ctx context.Context, reverse bool) *Conn {
 	car.W.ConnMeta[c.ID] = car.Meta
 	car.mu.Unlock()
 
-	c.cliCtx, c.cliCancel = context.WithCancel(ctx)
+	c.cliCtx, c.cliCancel = context.WithCancel(context.WithValue(ctx, simrt.OrderKey{}, int64(c.ID)))
 	md, _ := metadata.FromOutgoingContext(ctx)
 	c.ReqMD = md.Copy()
 
